@@ -125,6 +125,7 @@ pub struct RunOut {
     pub heap_overruns: (u64, usize, usize),
     /// the link stopped recording datagrams (memory bound of pathological runs)
     pub log_truncated: bool,
+    pub log_truncated_at_ns: u64,
 }
 
 fn now_ns() -> u64 {
@@ -822,5 +823,6 @@ pub fn execute(plan: &Plan) -> RunOut {
         panic,
         heap_overruns: crate::guard::take(),
         log_truncated: l.log_truncated,
+        log_truncated_at_ns: l.log_truncated_at_ns,
     }
 }
